@@ -79,6 +79,23 @@ def open_ctx(unit) -> Ctx:
     try:
         g = b.extract(bool(unit.get("xd", False)))
         exc = None
+        if unit.get("reannotate"):
+            # the documented way of altering a refinement / field type before (re-)extracting the grammar:
+            #   X.__init__.__annotations__[field] = NewType ; extract_grammar(...) again.
+            # The classes are first *used* (one creation with default answers), then re-annotated.
+            cls_name, field, new_t = unit["reannotate"]
+            from mc.explorer import ExhaustiveSource as _ES
+
+            try:
+                make_rep("tree", g, _ES(()), g.get_min_tree_depth() + 1).create_genotype(_ES(()))
+            except Exception:  # noqa
+                pass
+            cls = b.classes[cls_name]
+            spec = G.respec_field(spec, cls_name, field, new_t)
+            new_py = G.build_type(new_t, b.classes)
+            cls.__init__.__annotations__[field] = new_py
+            cls.__annotations__[field] = new_py
+            g = b.extract(bool(unit.get("xd", False)))
     except Exception as e:  # noqa
         g, exc = None, e
     return Ctx(unit, spec, b, g, R.SpecView(spec), extract_exc=exc)
@@ -280,7 +297,7 @@ def standard_units(tier: str, family=None, deciders=("maxdepth", "full", "pigrow
             us.append({"kind": "tree-create", "spec": spec, "decider": "pt", "depth_off": 0, "horizon": 40,
                        "max_execs": 400 if tier == "quick" else 5000})
     small = [s for s in fam if s["name"].split(":")[0] in
-             ("S1", "S2", "S3", "S5", "S6", "S7", "S8", "S9", "S10", "S11", "S12", "S13", "S14", "S15", "S16", "S17", "S18", "S19")]
+             ("S1", "S2", "S3", "S5", "S6", "S7", "S8", "S9", "S10", "S11", "S12", "S13", "S14", "S15", "S16", "S17", "S18", "S19", "S20", "S21")]
     small += [s for s in fam if s["name"].startswith(("F1:", "G1:"))]
     if tier != "quick":
         small = fam
@@ -293,6 +310,20 @@ def standard_units(tier: str, family=None, deciders=("maxdepth", "full", "pigrow
                        "K": 2 if tier == "quick" else 3,
                        "max_states": 25 if tier == "quick" else 80,
                        "max_execs_per_op": 60 if tier == "quick" else 300})
+    shapes = {s["name"].split(":")[0]: s for s in G.family_shapes()}
+    for base, cls_name, field, new_t in (
+        ("S1", "Lit", "v", ["ann", "int", ["IntRange", 5, 6]]),
+        ("S1", "Lit", "v", ["ann", "float", ["FloatList", [0.5, 1.5]]]),
+        ("S1", "Var", "n", ["ann", "str", ["VarRange", ["z"]]]),
+        ("S2", "N", "a", ["ref", "L"]),
+        ("S9", "M", "xs", ["ann", ["list", ["ref", "C"]], ["LSB", 2, 2]]),
+    ):
+        for dec in ("maxdepth", "pigrow"):
+            us.append({"kind": "tree-create", "spec": shapes[base], "decider": dec, "depth_off": 1, "max_execs": 600,
+                       "reannotate": [cls_name, field, new_t]})
+        if "ge" in reps_map:
+            us.append({"kind": "map", "spec": shapes[base], "rep": "ge", "depth_off": 1, "L": 3, "max_execs": 20,
+                       "reannotate": [cls_name, field, new_t]})
     return us
 
 
